@@ -548,7 +548,9 @@ class SigmaDetections:
     ) -> Self:
         try:
             if isinstance(detections["condition"], list):
-                condition = detections["condition"]
+                # own copy: the list is changed when filters are applied and must not be shared
+                # with other rules created from the same document (collection action 'repeat')
+                condition = list(detections["condition"])
             else:
                 condition = [detections["condition"]]
         except KeyError:
